@@ -8,6 +8,7 @@ package checks
 // error, stack overflow, out of memory) the parent can attribute the death to that exact case.
 
 import (
+	"context"
 	"encoding/json"
 	"fmt"
 	"os"
@@ -116,7 +117,13 @@ func RunSharded(r *ev.Run, n int, crashIsViolation bool, extra ...string) {
 			errf := filepath.Join(work, fmt.Sprintf("err.%s.%d.txt", r.ID, i))
 			os.Remove(res)
 			args := append([]string{r.ID, r.Tier, "--worker", strconv.Itoa(i), strconv.Itoa(n), res, mark}, extra...)
-			cmd := exec.Command(os.Args[0], args...)
+			grace := time.Until(r.Deadline) + 90*time.Second
+			if grace < 90*time.Second {
+				grace = 90 * time.Second
+			}
+			ctx, cancel := context.WithTimeout(context.Background(), grace)
+			defer cancel()
+			cmd := exec.CommandContext(ctx, os.Args[0], args...)
 			ef, _ := os.Create(errf)
 			cmd.Stderr = ef
 			cmd.Stdout = ef
@@ -136,7 +143,13 @@ func RunSharded(r *ev.Run, n int, crashIsViolation bool, extra ...string) {
 			label, data := readMark(mark)
 			tail, _ := os.ReadFile(errf)
 			first := ""
+			if ctx.Err() != nil {
+				first = "hang: the worker did not finish and was killed 90 s after the deadline"
+			}
 			for _, l := range strings.Split(string(tail), "\n") {
+				if first != "" {
+					break
+				}
 				if strings.HasPrefix(l, "fatal error:") || strings.HasPrefix(l, "panic:") || strings.HasPrefix(l, "runtime:") {
 					first = l
 					break
